@@ -53,81 +53,181 @@ def _exit(fn):
         raise Unsupported("__exit__ signature (expected keyword-only _frames=<n>): " + U(fn.args))
     default_frames = ar.kw_defaults[0].value
     body = _strip_doc(fn.body)
+    # ---- early returns.  Semantic content pinned: WHICH tests, in WHICH evaluation order, each one
+    # leading to a falsy return (None / False: both mean "do not suppress").  Accepted spellings: one
+    # `if` per test, several tests joined by `or` in one `if` (evaluated left to right), and the
+    # exclude test as `if exclude is not None: if issubclass(type_, exclude): return False`.
+    known = {
+        "type_ is None": "noneType",
+        "getattr(logger._core.thread_locals, 'already_logging_exception', False)": "guardFlag",
+        "not issubclass(type_, exception)": "notSubclass",
+        "exclude is not None and issubclass(type_, exclude)": "excluded",
+    }
+
+    def falsy_return(stmts):
+        return len(stmts) == 1 and isinstance(stmts[0], ast.Return) and (
+            stmts[0].value is None or (isinstance(stmts[0].value, ast.Constant)
+                                       and (stmts[0].value.value is None or stmts[0].value.value is False)))
+
+    def disjuncts(e):
+        if isinstance(e, ast.BoolOp) and isinstance(e.op, ast.Or):
+            out = []
+            for v in e.values:
+                out += disjuncts(v)
+            return out
+        return [e]
+
     tests = []
     i = 0
-    known = {
-        "type_ is None": ("noneType", None),
-        "getattr(logger._core.thread_locals, 'already_logging_exception', False)": ("guardFlag", False),
-        "not issubclass(type_, exception)": ("notSubclass", False),
-        "exclude is not None and issubclass(type_, exclude)": ("excluded", False),
-    }
-    while i < len(body) and isinstance(body[i], ast.If) and U(body[i].test) in known:
-        name, ret = known[U(body[i].test)]
+    while i < len(body) and isinstance(body[i], ast.If) and not body[i].orelse:
         st = body[i]
-        if st.orelse or len(st.body) != 1 or not _is_return_const(st.body[0], ret):
-            raise Unsupported("early return of test %s: %s" % (name, U(st)))
-        tests.append(name)
+        if U(st.test) == "exclude is not None" and len(st.body) == 1 and isinstance(st.body[0], ast.If) \
+                and not st.body[0].orelse and U(st.body[0].test) == "issubclass(type_, exclude)" \
+                and falsy_return(st.body[0].body):
+            tests.append("excluded")
+            i += 1
+            continue
+        names = [known.get(U(d)) for d in disjuncts(st.test)]
+        if None in names or not falsy_return(st.body):
+            break           # not an early return of known tests: judged as an ordinary statement below
+        tests += names
         i += 1
     rest = body[i:]
+
+    # ---- the effectful tail.  Local names are irrelevant (alpha-renaming); single-assignment aliases of
+    # `self._from_decorator` and `logger._core.thread_locals` and of the options list are looked through.
+    FD, TL = "self._from_decorator", "logger._core.thread_locals"
+    alias = {}                    # local name -> canonical expression text
+    depth_name = options_name = None
+    optlist = None                # canonical text of the list handed to _log, once built
+    optlist_name = None
+
+    class Canon(ast.NodeTransformer):
+        def visit_Name(self, node):
+            if isinstance(node.ctx, ast.Load) and node.id in alias:
+                return ast.parse(alias[node.id], mode="eval").body
+            if node.id == depth_name:
+                return ast.Name("DEPTH", node.ctx)
+            if node.id == options_name:
+                return ast.Name("OPTIONS", node.ctx)
+            return node
+
+    def canon(node):
+        import copy
+        return U(ast.fix_missing_locations(Canon().visit(copy.deepcopy(node))))
+
+    def assigned_once(name):
+        n = 0
+        for node in ast.walk(fn):
+            if isinstance(node, ast.Name) and node.id == name and isinstance(node.ctx, (ast.Store, ast.Del)):
+                n += 1
+        return n == 1
+
+    def int_const(e):
+        return isinstance(e, ast.Constant) and type(e.value) is int
+
+    phase = 0     # 0 prologue, 1 depth adjusted by decorator, 2 frames added, 3 list built, 4 flag set, 5 logged, 6 onerror, 7 returned
     effects = []
     depth_incr = None
-    flag = "logger._core.thread_locals.already_logging_exception"
-    saw_options = False
-    saw_frames = False
     ret_expr = None
+    flag = TL + ".already_logging_exception"
+    want_list = "[(type_, value, traceback_), DEPTH, True, *OPTIONS]"
     for st in rest:
         s = U(st)
-        if s == "from_decorator = self._from_decorator":
+        # local alias of an attribute expression (any name, assigned exactly once)
+        if phase <= 3 and isinstance(st, ast.Assign) and len(st.targets) == 1 and isinstance(st.targets[0], ast.Name) \
+                and canon(st.value) in (FD, TL):
+            if not assigned_once(st.targets[0].id):
+                raise Unsupported("alias assigned more than once: " + s)
+            alias[st.targets[0].id] = canon(st.value)
             continue
-        if s == "_, depth, _, *options = logger._options":
-            saw_options = True
+        # `_, depth, _, *options = logger._options`
+        if phase == 0 and isinstance(st, ast.Assign) and len(st.targets) == 1 and isinstance(st.targets[0], ast.Tuple) \
+                and U(st.value) == "logger._options" and depth_name is None:
+            el = st.targets[0].elts
+            if len(el) == 4 and all(isinstance(x, ast.Name) for x in el[:3]) and isinstance(el[3], ast.Starred) \
+                    and isinstance(el[3].value, ast.Name) and len({el[0].id, el[1].id, el[3].value.id}) == 3 \
+                    and el[1].id != el[2].id and el[3].value.id != el[2].id:
+                depth_name, options_name = el[1].id, el[3].value.id
+                continue
+            raise Unsupported("unpacking of logger._options: " + s)
+        # decorator adjustment: `if from_decorator: depth += K` / `depth = depth + K` / `depth += K if from_decorator else 0`
+        if phase == 0 and depth_name is not None:
+            k = None
+            if isinstance(st, ast.If) and canon(st.test) == FD and not st.orelse and len(st.body) == 1:
+                b = st.body[0]
+                if isinstance(b, ast.AugAssign) and isinstance(b.op, ast.Add) and canon(b.target) == "DEPTH" and int_const(b.value):
+                    k = b.value.value
+                elif isinstance(b, ast.Assign) and len(b.targets) == 1 and canon(b.targets[0]) == "DEPTH" \
+                        and isinstance(b.value, ast.BinOp) and isinstance(b.value.op, ast.Add):
+                    l, r = b.value.left, b.value.right
+                    if canon(l) == "DEPTH" and int_const(r):
+                        k = r.value
+                    elif canon(r) == "DEPTH" and int_const(l):
+                        k = l.value
+                if k is None:
+                    raise Unsupported("depth adjustment: " + s)
+            elif isinstance(st, ast.AugAssign) and isinstance(st.op, ast.Add) and canon(st.target) == "DEPTH" \
+                    and isinstance(st.value, ast.IfExp) and canon(st.value.test) == FD and int_const(st.value.body) \
+                    and int_const(st.value.orelse) and st.value.orelse.value == 0:
+                k = st.value.body.value
+            if k is not None:
+                if k < 0:
+                    raise Unsupported("negative depth adjustment")
+                depth_incr = k
+                phase = 1
+                continue
+        # `depth += _frames`
+        if phase == 1 and ((isinstance(st, ast.AugAssign) and isinstance(st.op, ast.Add) and canon(st.target) == "DEPTH"
+                            and U(st.value) == "_frames")
+                           or (isinstance(st, ast.Assign) and len(st.targets) == 1 and canon(st.targets[0]) == "DEPTH"
+                               and canon(st.value) in ("DEPTH + _frames", "_frames + DEPTH"))):
+            phase = 2
             continue
-        if isinstance(st, ast.If) and U(st.test) == "from_decorator" and not st.orelse and len(st.body) == 1:
-            b = st.body[0]
-            if isinstance(b, ast.AugAssign) and isinstance(b.op, ast.Add) and U(b.target) == "depth" \
-                    and isinstance(b.value, ast.Constant) and isinstance(b.value.value, int):
-                depth_incr = b.value.value
-            elif isinstance(b, ast.Assign) and U(b.targets[0]) == "depth" and isinstance(b.value, ast.BinOp) \
-                    and isinstance(b.value.op, ast.Add) and U(b.value.left) == "depth" \
-                    and isinstance(b.value.right, ast.Constant) and isinstance(b.value.right.value, int):
-                depth_incr = b.value.right.value
-            else:
-                raise Unsupported("depth adjustment: " + s)
-            if depth_incr < 0:
-                raise Unsupported("negative depth adjustment")
+        # the options list (may also be written inline in the _log call)
+        if phase == 2 and isinstance(st, ast.Assign) and len(st.targets) == 1 and isinstance(st.targets[0], ast.Name) \
+                and canon(st.value) == want_list:
+            if not assigned_once(st.targets[0].id):
+                raise Unsupported("options list assigned more than once: " + s)
+            optlist_name = st.targets[0].id
+            phase = 3
             continue
-        if s == "depth += _frames" or s == "depth = depth + _frames":
-            if depth_incr is None or saw_frames or effects:
-                raise Unsupported("`depth += _frames` is misplaced or repeated")
-            saw_frames = True
-            continue
-        if s == "catch_options = [(type_, value, traceback_), depth, True, *options]":
-            if not saw_frames:
-                raise Unsupported("catch_options built before `depth += _frames`")
-            continue
-        if s == flag + " = True":
+        if phase in (2, 3) and isinstance(st, ast.Assign) and len(st.targets) == 1 and canon(st.targets[0]) == flag \
+                and isinstance(st.value, ast.Constant) and st.value.value is True:
             effects.append("setFlag")
+            phase = 4
             continue
-        if isinstance(st, ast.Try):
+        if phase == 4 and isinstance(st, ast.Try):
             if st.handlers or st.orelse or len(st.body) != 1 or len(st.finalbody) != 1:
                 raise Unsupported("try shape: " + s)
-            if U(st.body[0]) != "logger._log(level, from_decorator, catch_options, message, (), {})":
+            call = st.body[0].value if isinstance(st.body[0], ast.Expr) else None
+            if not (isinstance(call, ast.Call) and U(call.func) == "logger._log" and not call.keywords and len(call.args) == 6):
                 raise Unsupported("_log call: " + U(st.body[0]))
-            if U(st.finalbody[0]) != flag + " = False":
-                raise Unsupported("finally body: " + U(st.finalbody[0]))
+            a = call.args
+            third = want_list if (optlist_name is not None and isinstance(a[2], ast.Name) and a[2].id == optlist_name) \
+                else canon(a[2])
+            if [U(a[0]), canon(a[1]), third, U(a[3]), U(a[4]), U(a[5])] != ["level", FD, want_list, "message", "()", "{}"]:
+                raise Unsupported("_log call arguments: " + U(st.body[0]))
+            f = st.finalbody[0]
+            if not (isinstance(f, ast.Assign) and len(f.targets) == 1 and canon(f.targets[0]) == flag
+                    and isinstance(f.value, ast.Constant) and f.value.value is False):
+                raise Unsupported("finally body: " + U(f))
             effects += ["logInTry", "resetFlagInFinally"]
+            phase = 5
             continue
-        if isinstance(st, ast.If) and U(st.test) == "onerror is not None" and not st.orelse \
+        if phase == 5 and isinstance(st, ast.If) and U(st.test) == "onerror is not None" and not st.orelse \
                 and len(st.body) == 1 and U(st.body[0]) == "onerror(value)":
             effects.append("onerrorIfNotNone")
+            phase = 6
             continue
-        if isinstance(st, ast.Return) and st is rest[-1]:
+        if phase in (5, 6) and isinstance(st, ast.Return) and st is rest[-1] and st.value is not None:
             ret_expr = st.value
             effects.append("returnNotReraise")
+            phase = 7
             continue
-        raise Unsupported("unexpected statement in __exit__: " + s)
-    if not saw_options or depth_incr is None or ret_expr is None or not saw_frames:
-        raise Unsupported("__exit__ misses options/depth/_frames/return")
+        raise Unsupported("unexpected statement in __exit__ (phase %d): %s" % (phase, s))
+    if phase != 7 or depth_incr is None:
+        raise Unsupported("__exit__ misses options/depth/_frames/log/return")
     return tests, effects, depth_incr, ret_expr, default_frames
 
 
